@@ -30,10 +30,16 @@ type mgExpr struct {
 }
 
 type mgStmt struct {
-	K          string // skip seq decl asg opasg inc dec if ifelse for break continue return block expr
+	K          string // skip seq decl asg opasg inc dec if ifelse for break continue return block call callasg
 	X          int
 	Op         string
 	E          *mgExpr
+	Es         []*mgExpr // return: all operands when the function has several results
+	F          int       // call, callasg: callee
+	Name       string    // its Go name
+	Args       []*mgExpr
+	Decl       bool    // callasg: := or =
+	Xs         []int   // callasg: targets, -1 is the blank identifier
 	S1, S2, S3 *mgStmt // seq: S1 S2; if: S1; ifelse: S1 S2; for: init S1, post S2, body S3; block: S1
 	L          []*mgStmt
 }
@@ -42,6 +48,8 @@ type mgFunc struct {
 	Params  []int
 	PTypes  []string
 	Ret     string
+	Rets    []string // several results (then Ret is empty and the function is not exported)
+	Name    string
 	Body    []*mgStmt
 	nextVar int
 }
@@ -137,6 +145,22 @@ func (e *mgExpr) coq() string {
 	panic("mgExpr kind " + e.K)
 }
 
+func mgArgs(args []*mgExpr) string {
+	as := make([]string, len(args))
+	for i, a := range args {
+		as[i] = a.goSrc()
+	}
+	return strings.Join(as, ", ")
+}
+
+func mgCoqArgs(args []*mgExpr) string {
+	as := make([]string, len(args))
+	for i, a := range args {
+		as[i] = a.coq()
+	}
+	return "[" + strings.Join(as, "; ") + "]"
+}
+
 func mgGoBlock(sb *strings.Builder, l []*mgStmt, ind int) {
 	for _, s := range l {
 		s.goSrc(sb, ind)
@@ -157,8 +181,21 @@ func (s *mgStmt) simple() string {
 		return fmt.Sprintf("v%d++", s.X)
 	case "dec":
 		return fmt.Sprintf("v%d--", s.X)
-	case "expr":
-		return s.E.goSrc()
+	case "call":
+		return s.Name + "(" + mgArgs(s.Args) + ")"
+	case "callasg":
+		xs := make([]string, len(s.Xs))
+		for i, x := range s.Xs {
+			xs[i] = "_"
+			if x >= 0 {
+				xs[i] = fmt.Sprintf("v%d", x)
+			}
+		}
+		op := "="
+		if s.Decl {
+			op = ":="
+		}
+		return strings.Join(xs, ", ") + " " + op + " " + s.Name + "(" + mgArgs(s.Args) + ")"
 	}
 	panic("not a simple statement: " + s.K)
 }
@@ -167,7 +204,7 @@ func (s *mgStmt) goSrc(sb *strings.Builder, ind int) {
 	tab := strings.Repeat("\t", ind)
 	switch s.K {
 	case "skip":
-	case "decl", "asg", "opasg", "inc", "dec", "expr":
+	case "decl", "asg", "opasg", "inc", "dec", "call", "callasg":
 		sb.WriteString(tab + s.simple() + "\n")
 	case "if", "ifelse":
 		sb.WriteString(tab)
@@ -202,7 +239,11 @@ func (s *mgStmt) goSrc(sb *strings.Builder, ind int) {
 	case "continue":
 		sb.WriteString(tab + "continue\n")
 	case "return":
-		sb.WriteString(tab + "return " + s.E.goSrc() + "\n")
+		if s.Es != nil {
+			sb.WriteString(tab + "return " + mgArgs(s.Es) + "\n")
+		} else {
+			sb.WriteString(tab + "return " + s.E.goSrc() + "\n")
+		}
 	case "block":
 		sb.WriteString(tab + "{\n")
 		mgGoBlock(sb, s.L, ind+1)
@@ -234,8 +275,14 @@ func (s *mgStmt) coq() string {
 		return fmt.Sprintf("Inc %d", s.X)
 	case "dec":
 		return fmt.Sprintf("Dec %d", s.X)
-	case "expr":
-		return "SExpr (" + s.E.coq() + ")"
+	case "call":
+		return fmt.Sprintf("CallS %d %s", s.F, mgCoqArgs(s.Args))
+	case "callasg":
+		xs := make([]string, len(s.Xs))
+		for i, x := range s.Xs {
+			xs[i] = coqZs(int64(x))
+		}
+		return fmt.Sprintf("CallAsg %v [%s] %d %s", s.Decl, strings.Join(xs, "; "), s.F, mgCoqArgs(s.Args))
 	case "if":
 		return "SIf (" + s.E.coq() + ") (" + mgCoqSeq(s.S1.L) + ")"
 	case "ifelse":
@@ -253,7 +300,10 @@ func (s *mgStmt) coq() string {
 	case "continue":
 		return "SContinue"
 	case "return":
-		return "SReturn (" + s.E.coq() + ")"
+		if s.Es != nil {
+			return "SReturn " + mgCoqArgs(s.Es)
+		}
+		return "SReturn [" + s.E.coq() + "]"
 	case "block":
 		return "SBlock (" + mgCoqSeq(s.L) + ")"
 	}
@@ -267,12 +317,16 @@ type mgProg struct {
 func (p *mgProg) goSrc(pkg string) string {
 	var sb strings.Builder
 	sb.WriteString("package " + pkg + "\n\n")
-	for i, f := range p.Funcs {
+	for _, f := range p.Funcs {
 		ps := make([]string, len(f.Params))
 		for j := range f.Params {
 			ps[j] = fmt.Sprintf("v%d %s", f.Params[j], f.PTypes[j])
 		}
-		fmt.Fprintf(&sb, "func F%d(%s) %s {\n", i, strings.Join(ps, ", "), f.Ret)
+		ret := f.Ret
+		if f.Rets != nil {
+			ret = "(" + strings.Join(f.Rets, ", ") + ")"
+		}
+		fmt.Fprintf(&sb, "func %s(%s) %s {\n", f.Name, strings.Join(ps, ", "), ret)
 		mgGoBlock(&sb, f.Body, 1)
 		sb.WriteString("}\n\n")
 	}
@@ -286,7 +340,7 @@ func (p *mgProg) coq() string {
 		for j, x := range f.Params {
 			ps[j] = fmt.Sprint(x)
 		}
-		fs[i] = fmt.Sprintf("Fn [%s] (%s)", strings.Join(ps, "; "), mgCoqSeq(f.Body))
+		fs[i] = fmt.Sprintf("Fn [%s] %d (%s)", strings.Join(ps, "; "), max(1, len(f.Rets)), mgCoqSeq(f.Body))
 	}
 	return "[" + strings.Join(fs, ";\n    ") + "]"
 }
@@ -322,7 +376,16 @@ type mgGen struct {
 type mgSig struct {
 	ptypes []string
 	ret    string
+	rets   []string // several results: called only through a multiple assignment or a call statement
 	rec    bool
+	used   bool
+}
+
+func mgName(i int, sig mgSig) string {
+	if sig.rets != nil {
+		return fmt.Sprintf("f%d", i) // exported functions may have one result only
+	}
+	return fmt.Sprintf("F%d", i)
 }
 
 func (g *mgGen) vars(typ string, assignable bool) []mgVar {
@@ -502,7 +565,7 @@ func (g *mgGen) genCall(ret string, d int) *mgExpr {
 	}
 	var cands []int
 	for j := g.fidx + 1; j < len(g.sigs); j++ {
-		if g.sigs[j].ret == ret && (g.cost+g.fcost[j]*g.mult)*self <= mgCostBudget {
+		if g.sigs[j].rets == nil && g.sigs[j].ret == ret && (g.cost+g.fcost[j]*g.mult)*self <= mgCostBudget {
 			cands = append(cands, j)
 		}
 	}
@@ -545,7 +608,7 @@ func (g *mgGen) block(n int, budget *int) []*mgStmt {
 		if vs := g.vars("int", true); len(vs) > 0 {
 			l = append(l, &mgStmt{K: "asg", X: vs[0].id, E: g.genIntFit(1)})
 		} else {
-			l = append(l, &mgStmt{K: "block", L: []*mgStmt{{K: "return", E: g.retExpr()}}})
+			l = append(l, &mgStmt{K: "block", L: []*mgStmt{g.retStmt()}})
 		}
 	}
 	g.scopes = g.scopes[:len(g.scopes)-1]
@@ -553,6 +616,17 @@ func (g *mgGen) block(n int, budget *int) []*mgStmt {
 }
 
 func (g *mgGen) retExpr() *mgExpr { return g.genOf(g.f.Ret, 2) }
+
+func (g *mgGen) retStmt() *mgStmt {
+	if g.f.Rets == nil {
+		return &mgStmt{K: "return", E: g.retExpr()}
+	}
+	s := &mgStmt{K: "return"}
+	for _, t := range g.f.Rets {
+		s.Es = append(s.Es, g.genOf(t, 2))
+	}
+	return s
+}
 
 // a use of every declared variable right after its declaration keeps the Go compiler satisfied
 func (g *mgGen) useStmt(v mgVar) *mgStmt {
@@ -563,12 +637,12 @@ func (g *mgGen) useStmt(v mgVar) *mgStmt {
 				return &mgStmt{K: "asg", X: a.id, E: g.mkBin("Mod", g.mkBin("Add", mgVarE(a.id), mgVarE(v.id)), mgLit(c14M))}
 			}
 		}
-		return &mgStmt{K: "if", E: g.mkBin("Lt", mgVarE(v.id), mgLit(-2000000)), S1: &mgStmt{L: []*mgStmt{{K: "return", E: g.retExpr()}}}}
+		return &mgStmt{K: "if", E: g.mkBin("Lt", mgVarE(v.id), mgLit(-2000000)), S1: &mgStmt{L: []*mgStmt{g.retStmt()}}}
 	}
 	if len(acc) > 0 {
 		return &mgStmt{K: "if", E: mgVarE(v.id), S1: &mgStmt{L: []*mgStmt{{K: "asg", X: acc[0].id, E: mgLit(int64(g.r.intn(50)))}}}}
 	}
-	return &mgStmt{K: "if", E: mgVarE(v.id), S1: &mgStmt{L: []*mgStmt{{K: "return", E: g.retExpr()}}}}
+	return &mgStmt{K: "if", E: mgVarE(v.id), S1: &mgStmt{L: []*mgStmt{g.retStmt()}}}
 }
 
 func (g *mgGen) stmt(budget *int) []*mgStmt {
@@ -687,13 +761,18 @@ func (g *mgGen) stmt(budget *int) []*mgStmt {
 			return []*mgStmt{{K: "if", E: g.genBool(1), S1: &mgStmt{L: []*mgStmt{{K: pick(g.r, []string{"break", "continue"})}}}}}
 		}
 		g.feat["early-return"]++
-		return []*mgStmt{{K: "if", E: g.genBool(1), S1: &mgStmt{L: []*mgStmt{{K: "return", E: g.retExpr()}}}}}
+		return []*mgStmt{{K: "if", E: g.genBool(1), S1: &mgStmt{L: []*mgStmt{g.retStmt()}}}}
 	case k < 18:
 		return []*mgStmt{{K: "block", L: g.block(2, budget)}}
 	case k < 19:
+		if g.r.bool() {
+			if ss := g.multiCall(-1); ss != nil {
+				return ss
+			}
+		}
 		if e := g.genCall(pick(g.r, []string{"int", "bool"}), 2); e != nil {
 			g.feat["call-stmt"]++
-			return []*mgStmt{{K: "expr", E: e}}
+			return []*mgStmt{{K: "call", F: e.F, Name: mgName(e.F, g.sigs[e.F]), Args: e.Args}}
 		}
 		return nil
 	case k < 20:
@@ -750,6 +829,79 @@ func (g *mgGen) loopBody(l []*mgStmt) []*mgStmt {
 	return l
 }
 
+// multiCall: a, _, c := f(..) / a, _, c = f(..) / f(..) for a function with several results (j < 0: any that the
+// cost bound allows)
+func (g *mgGen) multiCall(j int) []*mgStmt {
+	if j < 0 {
+		if g.inLoop >= 2 {
+			return nil
+		}
+		self := 1.0
+		if g.rec {
+			self = 8
+		}
+		var cands []int
+		for k := g.fidx + 1; k < len(g.sigs); k++ {
+			if g.sigs[k].rets != nil && (g.cost+g.fcost[k]*g.mult)*self <= mgCostBudget {
+				cands = append(cands, k)
+			}
+		}
+		if len(cands) == 0 {
+			return nil
+		}
+		j = cands[g.r.intn(len(cands))]
+	}
+	sig := g.sigs[j]
+	g.sigs[j].used = true
+	g.cost += g.fcost[j] * g.mult
+	g.feat["multi-call"]++
+	var args []*mgExpr
+	for _, t := range sig.ptypes {
+		args = append(args, g.genOf(t, 2))
+	}
+	name := mgName(j, sig)
+	if g.r.chance(15) {
+		return []*mgStmt{{K: "call", F: j, Name: name, Args: args}}
+	}
+	s := &mgStmt{K: "callasg", F: j, Name: name, Args: args, Decl: g.r.bool()}
+	var out []*mgStmt
+	var declared []mgVar
+	for _, t := range sig.rets {
+		switch {
+		case g.r.chance(20):
+			s.Xs = append(s.Xs, -1)
+		case s.Decl:
+			v := g.declare(t, false)
+			declared = append(declared, v)
+			s.Xs = append(s.Xs, v.id)
+		default:
+			x := -1
+			for _, v := range g.vars(t, true) {
+				dup := false
+				for _, y := range s.Xs {
+					dup = dup || y == v.id
+				}
+				if !dup && g.r.bool() {
+					x = v.id
+					break
+				}
+			}
+			s.Xs = append(s.Xs, x)
+		}
+	}
+	if s.Decl && len(declared) == 0 { // := needs a new variable
+		s.Decl = false
+	}
+	out = append(out, s)
+	for _, v := range declared {
+		g.bind(v)
+	}
+	for _, v := range declared {
+		out = append(out, g.useStmt(v))
+	}
+	return out
+}
+
 func mgGenProg(r *rng, feat map[string]int) (*mgProg, []mgSig) {
 	nf := 2 + r.intn(5)
 	g := &mgGen{r: r, prog: &mgProg{}, feat: feat}
@@ -760,6 +912,13 @@ func mgGenProg(r *rng, feat map[string]int) (*mgProg, []mgSig) {
 			sig.ptypes = append(sig.ptypes, pick(r, []string{"int", "int", "bool"}))
 		}
 		if i > 0 && r.chance(30) {
+			// several results, of both types and in varying positions
+			n := 2 + r.intn(2)
+			sig.ret = ""
+			for k := 0; k < n; k++ {
+				sig.rets = append(sig.rets, pick(r, []string{"int", "bool", "int"}))
+			}
+		} else if i > 0 && r.chance(30) {
 			sig.rec = true
 			sig.ret = "int"
 			sig.ptypes = append([]string{"int"}, sig.ptypes...)
@@ -773,11 +932,14 @@ func mgGenProg(r *rng, feat map[string]int) (*mgProg, []mgSig) {
 		g.sigs[nf-1].ptypes = []string{"int", "bool", "int", "int", "bool", "int"}[:5+r.intn(2)]
 		g.sigs[nf-1].rec = false
 	}
+	if r.chance(10) && g.sigs[nf-1].rets != nil { // five results: PUSH5 REVERSEN on the caller's side as well
+		g.sigs[nf-1].rets = []string{"int", "bool", "int", "int", "bool"}
+	}
 	g.fcost = make([]float64, nf)
 	g.prog.Funcs = make([]*mgFunc, nf)
 	for i := nf - 1; i >= 0; i-- { // callees first: their cost is known when a call is considered
 		sig := g.sigs[i]
-		f := &mgFunc{Ret: sig.ret}
+		f := &mgFunc{Ret: sig.ret, Rets: sig.rets, Name: mgName(i, sig)}
 		g.f, g.fidx, g.rec = f, i, sig.rec
 		g.cost, g.mult = 20, 1
 		g.scopes = [][]mgVar{nil}
@@ -799,6 +961,10 @@ func mgGenProg(r *rng, feat map[string]int) (*mgProg, []mgSig) {
 		acc := g.declare("int", false)
 		body = append(body, &mgStmt{K: "decl", X: acc.id, E: g.genIntFit(2)})
 		g.bind(acc)
+		// the compiler leaves out functions nobody calls: an unexported function is called by its predecessor
+		if i+1 < nf && g.sigs[i+1].rets != nil && !g.sigs[i+1].used {
+			body = append(body, g.multiCall(i+1)...)
+		}
 		for budget > 0 {
 			body = append(body, g.stmt(&budget)...)
 		}
@@ -820,7 +986,19 @@ func mgGenProg(r *rng, feat map[string]int) (*mgProg, []mgSig) {
 				ret = e
 			}
 		}
-		body = append(body, &mgStmt{K: "return", E: ret})
+		if sig.rets != nil {
+			rs := &mgStmt{K: "return"}
+			for k, t := range sig.rets {
+				if t == "int" && k == 0 {
+					rs.Es = append(rs.Es, g.mkBin("Mod", g.mkBin("Add", mgVarE(acc.id), g.genInt(1)), mgLit(c14M)))
+				} else {
+					rs.Es = append(rs.Es, g.genOf(t, 2))
+				}
+			}
+			body = append(body, rs)
+		} else {
+			body = append(body, &mgStmt{K: "return", E: ret})
+		}
 		f.Body = body
 		g.prog.Funcs[i] = f
 		g.fcost[i] = g.cost
@@ -943,13 +1121,14 @@ type c14FragRunIn struct {
 }
 
 type c14FragInput struct {
-	Pkg  string         `json:"pkg"`
-	Src  string         `json:"src"`
-	Coq  string         `json:"coq"`  // the program as a term of coq/Lang/MiniGo.v
-	Sigs [][]string     `json:"sigs"` // parameter types then result type, per function
-	Ops  []c14FragRunIn `json:"ops"`  // runs (shrunk by ./check)
-	Tag  string         `json:"tag"`
-	Nont bool           `json:"nontrivial"`
+	Pkg   string         `json:"pkg"`
+	Src   string         `json:"src"`
+	Coq   string         `json:"coq"`   // the program as a term of coq/Lang/MiniGo.v
+	Sigs  [][]string     `json:"sigs"`  // parameter types then result type ("" for several results), per function
+	Names []string       `json:"names"` // Go names; functions with several results are not exported (f<k>)
+	Ops   []c14FragRunIn `json:"ops"`   // runs (shrunk by ./check)
+	Tag   string         `json:"tag"`
+	Nont  bool           `json:"nontrivial"`
 }
 
 func c14CoqVal(v c14Val) string {
@@ -982,12 +1161,15 @@ func c14FragRun(co *caseOut, dir string, ins []c14FragInput) error {
 	for i, in := range ins {
 		u := c14Unit{Pkg: in.Pkg, Src: in.Src, Helpers: map[string]string{}}
 		for k, sg := range in.Sigs {
-			u.Funcs = append(u.Funcs, c14Func{Name: fmt.Sprintf("F%d", k), Params: sg[:len(sg)-1], Ret: sg[len(sg)-1]})
+			if sg[len(sg)-1] != "" { // entry functions: the exported ones
+				u.Funcs = append(u.Funcs, c14Func{Name: in.Names[k], Params: sg[:len(sg)-1], Ret: sg[len(sg)-1]})
+			}
 		}
 		units = append(units, u)
 		first[i] = len(calls)
 		for _, op := range in.Ops {
-			calls = append(calls, c14GoCall{Unit: i, Fn: u.Funcs[op.F], Args: op.Args})
+			sg := in.Sigs[op.F]
+			calls = append(calls, c14GoCall{Unit: i, Fn: c14Func{Name: in.Names[op.F], Params: sg[:len(sg)-1], Ret: sg[len(sg)-1]}, Args: op.Args})
 		}
 	}
 	ws, err := c14WriteWorkspace(dir, units, calls)
@@ -1022,8 +1204,8 @@ func c14FragRun(co *caseOut, dir string, ins []c14FragInput) error {
 			terms = nil
 		}
 		var ents []string
-		for k := range u.Funcs {
-			off, ok := cc.offsets[fmt.Sprintf("F%d", k)]
+		for k := range in.Sigs {
+			off, ok := cc.offsets[in.Names[k]]
 			idx := -1
 			if ok && at != nil {
 				if j, ok2 := at[off]; ok2 {
@@ -1039,7 +1221,8 @@ func c14FragRun(co *caseOut, dir string, ins []c14FragInput) error {
 		someValue := false
 		skipped := 0
 		for k, op := range in.Ops {
-			f := u.Funcs[op.F]
+			sg := in.Sigs[op.F]
+			f := c14Func{Name: in.Names[op.F], Params: sg[:len(sg)-1], Ret: sg[len(sg)-1]}
 			vm, _ := c14VMResult(cc, f, op.Args, nil)
 			g := gores[first[i]+k]
 			if c14LastSteps > c14FragStepCap && vm == g {
@@ -1113,13 +1296,17 @@ func c14FragGenerate(co *caseOut, cf *commonFlags, r *rng, work string) error {
 		p, sigs := mgGenProg(r, feat)
 		in := c14FragInput{Pkg: fmt.Sprintf("m%d", i), Coq: p.coq(), Tag: fmt.Sprintf("funcs%d", len(p.Funcs))}
 		in.Src = p.goSrc(in.Pkg)
-		for _, k := range []string{"for", "while", "call", "and", "or", "recursion"} {
+		for _, k := range []string{"for", "while", "call", "and", "or", "recursion", "multi-call"} {
 			if feat[k] > before[k] {
 				in.Nont = true
 			}
 		}
 		for k, f := range p.Funcs {
 			in.Sigs = append(in.Sigs, append(append([]string{}, f.PTypes...), f.Ret))
+			in.Names = append(in.Names, f.Name)
+			if f.Rets != nil {
+				continue
+			}
 			for _, t := range c14FragTuples(r, f.PTypes, 3, sigs[k].rec) {
 				in.Ops = append(in.Ops, c14FragRunIn{F: k, Args: t})
 			}
